@@ -925,6 +925,81 @@ def _eval_kview(cases):
     return res
 
 
+# ------------------------------------------------------------------------------------------------------------------
+# round 4: in-place wavelet kernels on injective strided 2-D views (`kind=kviewB`, Model/C08ViewsB.lean): the compiled
+# `haar/ihaar/daubechies/idaubechies(view, inline=True)` against the driver, the WHOLE root buffer compared (elements of the
+# view = the C17 transform of the logical content; everything else untouched)
+
+WAVELETS = ['haar', 'ihaar', 'daubechies', 'idaubechies']
+
+
+def _rand_wview(rng):
+    """an injective 2-D view: permuted / sign-flipped / gapped dense layout (what slicing, transposition, [::-1] produce)"""
+    shape = [rng.choice([1, 2, 3, 4, 4, 5, 6, 7, 8]) for _ in range(2)]
+    order = [0, 1]
+    rng.shuffle(order)
+    strides, acc = [0, 0], 1
+    for ax in order:
+        gap = rng.choice([1, 1, 2, 3])
+        strides[ax] = acc * gap * rng.choice([1, 1, -1])
+        acc *= shape[ax] * gap
+    lo = sum(min(0, s * (d - 1)) for s, d in zip(strides, shape))
+    hi = sum(max(0, s * (d - 1)) for s, d in zip(strides, shape))
+    base = -lo + rng.choice([0, 0, 1, 3])
+    return dict(stream='kviewB', shape=shape, strides=strides, base=base, buf=base + hi + 1 + rng.choice([0, 2]),
+                kernel=rng.choice(WAVELETS), code=rng.randrange(10), seed=rng.randrange(1 << 30))
+
+
+def _eval_kviewB(cases):
+    import mahotas
+    lines, bufs = [], []
+    for c in cases:
+        r = np.random.RandomState(c['seed'])
+        buf = r.randint(-8, 9, size=c['buf']).astype(np.float64)      # small integers: haar/ihaar are exact in binary64
+        if c['kernel'] == 'ihaar':
+            buf *= 4.0
+        bufs.append(buf)
+        lines.append(f"c08 kind=kviewB kernel={c['kernel']} code={c['code']} mem={core.fmt_floats(buf)} base={c['base']} "
+                     f"shape={gen.enc_shape(c['shape'])} strides={gen.enc_arr(list(c['strides']))}")
+    drvs = core.drive(lines)
+    res = []
+    for c, buf0, drv in zip(cases, bufs, drvs):
+        f = []
+        kern = c['kernel']
+        buf = buf0.copy()
+        v = np.lib.stride_tricks.as_strided(buf[c['base']:], shape=tuple(c['shape']), strides=tuple(8 * s for s in c['strides']),
+                                            writeable=True)
+        try:
+            if kern in ('haar', 'ihaar'):
+                ret = getattr(mahotas, kern)(v, preserve_energy=False, inline=True)
+            else:
+                ret = getattr(mahotas, kern)(v, 'D%d' % (2 * c['code'] + 2), inline=True)
+        except Exception as e:
+            res.append(dict(findings=[dict(kind='model', key=f'kviewB:{kern}:real-raised', detail=dict(err=repr(e)[:200]))], kernel=kern))
+            continue
+        if 'error' in drv or 'mem' not in drv:
+            f.append(dict(kind='model', key=f'kviewB:{kern}:driver-error', detail=dict(drv=drv)))
+        else:
+            model = core.floats(drv['mem'])
+            inview = np.zeros(buf.size, bool)
+            iv = np.lib.stride_tricks.as_strided(inview[c['base']:], shape=tuple(c['shape']), strides=tuple(s for s in c['strides']),
+                                                 writeable=True)
+            iv[...] = True
+            if not np.array_equal(buf[~inview], buf0[~inview]):
+                # the property itself: an in-place call may change the array it was given, nothing else
+                f.append(dict(kind='property', key=f'{kern}_inline:padding-modified', detail=dict(case=c)))
+            tol = 0.0 if kern in ('haar', 'ihaar') else 1e-9 * max(1.0, float(np.abs(buf0).max()))
+            if model.shape != buf.shape or not np.all(np.abs(model - buf) <= tol):
+                bad = int(np.argmax(np.abs(model - buf) > tol)) if model.shape == buf.shape else -1
+                f.append(dict(kind='model', key=f'kviewB:{kern}:model-vs-compiled',
+                              detail=dict(at=bad, model=float(model[bad]) if bad >= 0 else None, real=float(buf[bad]) if bad >= 0 else None)))
+            if ret is not v and not np.shares_memory(ret, buf):
+                f.append(dict(kind='model', key=f'kviewB:{kern}:inline-returned-copy', detail={}))
+        res.append(dict(findings=f, kernel=kern, nontrivial=True, sig=json.dumps(c, sort_keys=True),
+                        tags=dict(stream='kviewB', kernel=kern, fn=kern, contiguous=bool(v.flags.c_contiguous))))
+    return res
+
+
 NORMS = {'ascontiguousarray': lambda a: np.ascontiguousarray(a), 'require:CAW': lambda a: np.require(a, requirements='CAW'),
          'require:CW': lambda a: np.require(a, requirements='CW'), 'array:C': lambda a: np.array(a, order='C'),
          'array:K': lambda a: np.array(a), 'asanyarray': lambda a: np.asanyarray(a)}
@@ -1045,6 +1120,9 @@ def evaluate(cases):
     norms = [(i, c) for i, c in enumerate(cases) if c.get('stream') == 'norm']
     for (i, _), r in zip(norms, _eval_norm([c for _, c in norms]) if norms else []):
         out[i] = r
+    kvb = [(i, c) for i, c in enumerate(cases) if c.get('stream') == 'kviewB']
+    for (i, _), r in zip(kvb, _eval_kviewB([c for _, c in kvb]) if kvb else []):
+        out[i] = r
     for i, c in enumerate(cases):
         if c.get('stream') == 'cover':
             out[i] = _eval_cover(c)
@@ -1094,6 +1172,8 @@ def cases(rng, tier):
     nview = dict(quick=600, thorough=20000, search=3000)[tier]
     for _ in range(nview):
         out.append(_rand_view(rng))
+    for _ in range(dict(quick=240, thorough=6000, search=1200)[tier]):
+        out.append(_rand_wview(rng))
     for norm in sorted(NORMS):
         for layout in gen.LAYOUTS + ['unaligned']:
             for nd in (1, 2, 3):
